@@ -265,6 +265,10 @@ FINDINGS = [
          cases=c05_pin_cases()),
     dict(id="KF-C06-string-operands-and-stale-lift-type", property="C06", status="fixed", commit="367efd1",
          what="\"a\" < name() < \"z\" (literals kept as const char * in the single-evaluation form), (\"a\" if c else \"b\") + \"c\" (sum of two C literals), and a name lifted out of an if in one scope leaving its type behind for the same name lifted out of a loop elsewhere did not compile", cases=[]),
+    dict(id="KF-C07-target-text-in-strings", property="C07", status="fixed", commit="b982e70",
+         what="a statement containing the text target(NAME) inside a string literal (lcd.line(0, \"target(COM3)\"), x = \"see target(COM8)\") was swallowed as a build directive", cases=[]),
+    dict(id="KF-C17-progress-empty-range", property="C17", status="fixed", commit="a7f9d26",
+         what="lcd.progress with max_value <= 0 drew a full bar (host: empty), with an explicit width <= 0 the whole row (host: one cell)", cases=[]),
     dict(id="KF-C14-lcd-rebind", property="C14", status="open", commit=None,
          what="one name bound first to a parallel LCD and later to an I2C LCD (or the reverse): both libraries are requested, but the emitter keeps only the first display (one header, one object); outside the documented style, like KF-C05-rebind",
          cases=c14_rebind_cases()),
